@@ -21,9 +21,25 @@ def seeded():
         out.append("| `%s` | %s | %s | %s | %s |" % (os.path.basename(os.path.dirname(m)), d.get("property", ""), d.get("needs", "").replace("|", "/")[:300],
                                                    d.get("caught_quick", ""), d.get("caught_thorough", "")))
     return "\n".join(out)
+def coverage():
+    import sys
+    sys.path.insert(0, os.path.join(ROOT, "lib"))
+    import props
+    out = ["| property | level | parts (harness) | quick: evaluations / distinct classes / states | notes |", "|---|---|---|---|---|"]
+    for pid in sorted(props.PROPS):
+        spec = props.PROPS[pid]
+        parts = ", ".join("%s (%s)" % (q["name"], q["harness"]) for q in spec["parts"])
+        ev = os.path.join(ROOT, "evidence", pid + ".json")
+        cov = ""
+        if os.path.exists(ev):
+            d = json.load(open(ev))
+            c = d["coverage"]
+            cov = "%s / %s / %s (%s tier, %.0f s)" % (c.get("evaluations"), c.get("distinct_nontrivial"), c.get("states", "-"), d["tier"], d["wall_s"])
+        out.append("| %s | %s | %s | %s | notes/%s.md |" % (pid, spec["level"], parts, cov, pid))
+    return "\n".join(out)
 p = os.path.join(ROOT, "DESIGN.md")
 s = open(p).read()
-for name, fn in (("findings", findings), ("seeded", seeded)):
+for name, fn in (("findings", findings), ("seeded", seeded), ("coverage", coverage)):
     b, e = "<!-- BEGIN:%s -->" % name, "<!-- END:%s -->" % name
     if b in s and e in s:
         s = s[:s.index(b) + len(b)] + "\n" + fn() + "\n" + s[s.index(e):]
